@@ -115,7 +115,7 @@ theorem parseTop_render (ops : List Op) (fns : List Bytes) (hL : LexTable ops) (
   have hlex : LexOK ops fns (e.toks lp rp) := by
     have := lexOK_toks ops fns hL lp rp hlpm hrpm hlp hrp e hin [] (Or.inl rfl) trivial
     simpa using this
-  have hb := parseLoop_render ops fns hL lp rp hP ws hws (e.toks lp rp) 0 ⟨{}, false, none⟩ m [] (by simp [NoE]) hlex h1
+  have hb := parseLoop_render ops fns hL lp rp hP ws hws (e.toks lp rp) 0 ⟨{}, false, none⟩ m [] rfl (fun _ => stopPre_nil) hlex h1
   unfold parseTop parse
   rw [hb]
   unfold topOf at h2
